@@ -580,6 +580,29 @@ ADDENDA6 = {
 for _p, _t in ADDENDA6.items():
     CLAIMS[_p]['text'] = CLAIMS[_p]['text'].rstrip() + _t
 
+ADDENDA7 = {
+    'C01': ' Round 7: Poly1305 key block and packet body use different ChaCha20 block counters.',
+    'C02': ' Round 7: K is the canonical mpint of the integer secret; compression contexts renewed at every NEWKEYS.',
+    'C03': ' Round 7: _choose_alg returns only a common algorithm; host key checking switched off only by the caller; client-side host key algorithm (known finding).',
+    'C04': ' Round 7: CA signature verified on every decode (shared C16.R2).',
+    'C05': ' Round 7: host-based decision about the verified host; WebAuthn client data bound to the session (shared C16.R10); authorized_keys lines tried in order, CA lines never plain key lines (shared C17).',
+    'C06': ' Round 7: keyboard-interactive response only to an outstanding challenge.',
+    'C07': ' Round 7: one encoder per data type; early EOF through a forwarder (shared C20.R3).',
+    'C09': ' Round 7: abort() after close(); failed X11 setup closes the channel; channel tasks re-check the channel after awaiting; redirect writer queues; deferred queue never dropped (shared C11.R2); readuntil gives up while paused (shared C08.R11).',
+    'C10': ' Round 7: packet length bounded; SFTP session survives window-change / signal / break; extended replies decoded under the guard; DER nesting; connection error queued for every reader.',
+    'C11': ' Round 7: whoever ends a deferral flushes the queue.',
+    'C12': ' Round 7: server writes whole blocks; copy-data of a stated length fails on early EOF; read to end with block reads disabled; reader reports what was read; local raw writes.',
+    'C13': ' Round 7: symlink containment uses the normalised link directory; path helpers only convert types.',
+    'C14': ' Round 7: errno to status code table.',
+    'C15': ' Round 7: certificate option wire forms; exports use the stored comment only.',
+    'C16': ' Round 7: WebAuthn challenge delimited and origin bound; Z timestamps are UTC.',
+    'C17': ' Round 7: hashed entries and an absent address; cert-authority lines routed to the CA list only.',
+    'C18': ' Round 7: keyword arguments compared case-insensitively; final pass keyed by the original host.',
+    'C20': ' Round 7: client listener cancel sent once; SOCKS5 reply length follows the address type.',
+}
+for _p, _t in ADDENDA7.items():
+    CLAIMS[_p]['text'] = CLAIMS[_p]['text'].rstrip() + _t
+
 PENDING = 'check not built yet in this session (planned, see DESIGN.md section 5)'
 
 NOT_APPLICABLE = {
